@@ -556,6 +556,9 @@ func (w *effWalker) call(ce *ast.CallExpr) {
 				if mt, ok := types.Unalias(info.TypeOf(ce.Args[0])).Underlying().(*types.Map); ok {
 					w.mapRegs(mt)
 				}
+				if st, ok := types.Unalias(info.TypeOf(ce.Args[0])).Underlying().(*types.Slice); ok && b.Name() == "clear" {
+					w.elems(st.Elem())
+				}
 			case "make":
 				switch u := types.Unalias(info.TypeOf(ce)).Underlying().(type) {
 				case *types.Slice:
